@@ -673,6 +673,15 @@ def check_c10(tier, seed, replay):
                      'it is exercised at top level only'],
         prepare=prepare,
         extra_trusted=['Python re as regex oracle on the pattern subset used'])
+    if rc:
+        # say which C++ expression each differing model line stands for
+        import glob
+        for rp in glob.glob(os.path.join(vlib.REPLAYS, 'C10', '%s-p*.replay' % seed)):
+            body = [l.rstrip('\n') for l in open(rp) if not l.startswith('#')]
+            notes_cpp = ['# C++: %s' % matchergen.LINE2CPP[l] for l in body if l in matchergen.LINE2CPP]
+            if notes_cpp:
+                with open(rp, 'a') as fh:
+                    fh.write('\n'.join(notes_cpp) + '\n')
     if uncompilable:
         # every generated expression compiles against the unchanged tree; one that stops compiling is a failing input of its own
         seen = set()
